@@ -32,10 +32,28 @@ def gen_c06_dialog(rnd, sid):
                 quit_cb=None, quit_screen=None, exc_handler=True, run_empty=False, deliver_at=sorted(rnd.sample(range(1, 30), rnd.choice([0, 0, 2, 5]))))
 
 
+def gen_c06_ready_handler(rnd, sid):
+    """the application registers a handler of its own for InputReadySignal (it runs before the InputHandler's one): it observes, redraws, or re-enters the loop"""
+    c = gen_case(rnd, "tame", sid)
+    c["stdin"] = [rnd.choice(LINES) for _ in range(rnd.randint(2, 10))]
+    scripts = []
+    for _ in range(rnd.randint(1, 4)):
+        r = rnd.random()
+        if r < 0.4: scripts.append([])
+        elif r < 0.6: scripts.append([["sched_redraw"]])
+        elif r < 0.8: scripts.append([["sched_redraw"], ["proc", "InputReady"]])
+        else: scripts.append([["proc", None]])
+    c["handlers"] = list(c["handlers"]) + [dict(cls="InputReady", hid=len(c["handlers"]), data=None, scripts=scripts)]
+    return c
+
+
+LEAN_MODULES = ["C06", "C06b"]
+
+
 def generate(rnd, tier):
     n = 700 if tier == "quick" else 8000
     sid = SidCounter()
-    cases = []
+    cases = [gen_c06_ready_handler(rnd, sid) for _ in range(n // 10)]
     for _ in range(n):
         c = gen_case(rnd, "tame", sid)
         c["stdin"] = [rnd.choice(LINES) for _ in range(rnd.randint(3, 30))]
@@ -80,6 +98,7 @@ def monitor(case, obs):
     stack = []            # outstanding accepted requests: ("scr", screen) | ("blocking", screen)
     pending_read = None   # (receiver, line) of the last read, until delivered
     alt = []              # bypassing requesters that asked between the read and its delivery
+    owed = []             # earlier reads (same level) not yet delivered when a later reader was started: ((receiver, line), alternatives), oldest first
     ambiguous = False
     last_depth = None
     for i, ev, ctx in x.events():
@@ -103,13 +122,26 @@ def monitor(case, obs):
             if not stack or x.specs[ev[2]].get("skip_check"): stack.append(("blocking", ev[2], ctx.get("depth")))
         if ev[0] == "read":
             if plain and pending_read is not None and pending_read[0][0] == "scr" and pending_read[0][2] == last_depth:
-                return "the line %r was read for the prompt of screen %d and never delivered before the next read" % (pending_read[1], pending_read[0][1])
-            pending_read = ((stack[-1] if stack else ("?", None, None)), ev[1]); stack = []; alt = []
+                if not alt:
+                    return "the line %r was read for the prompt of screen %d and never delivered before the next read" % (pending_read[1], pending_read[0][1])
+                # a request was issued after that read and a new reader was started for it: the earlier line had been taken from the reader (its requester is
+                # settled) and is still owed to its receiver; the lines are delivered first-in first-out
+                owed.append((pending_read, list(alt)))
+                pending_read = (("scr", alt[-1], last_depth), ev[1]); stack = []; alt = []
+            else:
+                if not (pending_read is not None and pending_read[0][2] == last_depth): owed = []
+                pending_read = ((stack[-1] if stack else ("?", None, None)), ev[1]); stack = []; alt = []
         if ev[0] == "cb" and ev[2] == "input":
             scr, args, key = ev[1], ev[3], ev[4]
             if args not in last_prompt.get(scr, []): return "input() of screen %d got args %r, its outstanding prompts were asked with %r" % (scr, args, last_prompt.get(scr))
             last_prompt[scr].remove(args)
+            if plain and owed:
+                (recv, line), alts = owed.pop(0)
+                if line != key: return "input() received %r, the line read before it (%r, typed at the prompt of screen %r) was skipped" % (key, line, recv[1])
+                if scr not in alts + [recv[1]]: return "the line %r typed at the prompt of screen %r was handed to screen %d" % (key, recv[1], scr)
+                continue
             if plain and ambiguous and pending_read is not None and scr in alt + [pending_read[0][1]]:
+                if pending_read[1] != key: return "input() received %r, the line read was %r" % (key, pending_read[1])
                 plain = False       # from here on the oracle cannot tell which requests are still outstanding
             if plain:
                 if pending_read is None: return "input() of screen %d received %r without a preceding read" % (scr, key)
@@ -126,7 +158,9 @@ def monitor(case, obs):
 
 def classify(case, obs, verdict, model):
     fl = (model or {}).get("flags", [])
+    # the two hypotheses of C06_order_within_level (Props/C06b.lean), decided by the driver on the model's history of the same case
     if "K5" in fl and "which is not (any more) a line read from the console" in verdict: return "K5"
+    if "K5r" in fl and "which is not (any more) a line read from the console" in verdict: return "K5r"
     return None
 
 
